@@ -15,6 +15,7 @@ import (
 
 	"github.com/unixpickle/model3d/model2d"
 	"github.com/unixpickle/model3d/model3d"
+	"github.com/unixpickle/model3d/render3d"
 )
 
 var heavyWorkloads = map[string]bool{"cache-many-keys": true, "large-builds": true}
@@ -201,4 +202,34 @@ func wLargeBuilds(w *wctx) {
 		w.ops(100)
 	})
 	w.count("large_builds.segments", int64(ns))
+}
+
+// wMedium: one ParticipatingMedium object shared by all goroutines (as the render workers share
+// the scene): every goroutine casts along its own line, whose stretch inside the ball is disjoint
+// from the others'; a collision must lie inside the caller's own stretch.
+func wMedium(w *wctx) {
+	ctr := model3d.XYZ(w.rng.NormFloat64(), w.rng.NormFloat64(), w.rng.NormFloat64())
+	med := &render3d.ParticipatingMedium{Collider: &model3d.Sphere{Center: ctr, Radius: 1}, Material: &render3d.HGMaterial{G: 0.2, ScatterColor: render3d.NewColor(0.8)}, Lambda: 3}
+	var bad int32
+	w.parallel(w.gos, func(g int, rng *rand.Rand) {
+		dir := model3d.XYZ(rng.NormFloat64(), rng.NormFloat64(), rng.NormFloat64()).Normalize()
+		back := 2 + 3*float64(g) // the ball is entered at distance back-1 and left at back+1
+		origin := ctr.Sub(dir.Scale(back))
+		for k := 0; k < 300 && atomic.LoadInt32(&bad) == 0; k++ {
+			rc, _, ok := med.Cast(&model3d.Ray{Origin: origin, Direction: dir})
+			if ok && (rc.Scale < back-1-1e-9 || rc.Scale > back+1+1e-9) {
+				atomic.StoreInt32(&bad, 1)
+				w.behav("render3d.ParticipatingMedium.Cast/concurrent-collision-inside-own-stretch", fmt.Sprintf("goroutine %d: collision at %g, its ray is inside the medium from %g to %g", g, rc.Scale, back-1, back+1))
+				return
+			}
+		}
+		w.ops(300)
+	})
+	// and inside a render
+	cam := render3d.NewCameraAt(ctr.Add(model3d.XYZ(0, -4, 0)), ctr, 0.8)
+	rt := &render3d.RecursiveRayTracer{Camera: cam, MaxDepth: 3, NumSamples: 4,
+		Lights: []*render3d.PointLight{{Origin: ctr.Add(model3d.XYZ(2, -3, 4)), Color: render3d.NewColor(20)}}}
+	img := render3d.NewImage(24, 18)
+	rt.Render(img, med)
+	w.ops(24 * 18)
 }
